@@ -183,6 +183,14 @@ def services_scan_harness(session_given: bool):
                 out.append(("reported-under-its-own-service-id-with-that-answer", z3.And(
                     z3.BoolVal(base is st["result"] and val is I2.ghost.get("last_reply")),
                     models.as_int(I2, key) == cur)))
+            if probes and session_given:
+                # "findings belong to the session they are reported for": with --check-session
+                # every probed id is preceded by the session check - no id is probed on the
+                # strength of an earlier check
+                cs = I2.truth(check_sess)
+                cs = z3.BoolVal(cs) if isinstance(cs, bool) else cs
+                out.append(("with-check-session-every-probed-id-is-preceded-by-the-check",
+                            z3.Implies(cs, z3.BoolVal(I2.ghost["session_checks"] == 1))))
             if I2.ghost["session_checks"]:
                 out.append(("session-is-checked-before-the-first-probe-of-an-id", z3.BoolVal(
                     I2.ghost["session_checks"] == 1 and I2.ghost["probes_at_check"] == 0)))
